@@ -1,7 +1,7 @@
 (* C03 — Verify accepts exactly the signatures valid over the received bytes.
    Statements only (copied from coq/theories by bin/mkprops); each proof is `exact <lemma>`. *)
 From Coq Require Import Ascii String ZArith List Bool Permutation.
-From GoCose Require Import Bytes Cbor CborProofs Res GoVal Obs Ecdsa EcdsaProofs Fx Headers Enc Dec Msg HashEnv Key SigVer Run TbsProofs FlowProofs.
+From GoCose Require Import Bytes Cbor CborProofs Res GoVal Obs Ecdsa EcdsaProofs Fx Headers Enc Dec Msg HashEnv Key SigVer Run TbsProofs FlowProofs DecProofs HdrProofs.
 From GoCose.Gen Require Import Generated.
 Import ListNotations.
 Open Scope Z_scope.
@@ -102,3 +102,14 @@ Theorem C03_verify_digest_rej :
   verify_digest n ok sig = Rej e -> e = EVerification.
 Proof. exact verify_digest_rej. Qed.
 Print Assumptions C03_verify_digest_rej.
+
+(* hash envelopes: a message is returned exactly when the bytes decode, the rules hold, the signature verifies over the received bytes and the digest has the length of the named hash *)
+Theorem C03_verify_he_iff :
+  forall vf env,
+  (exists m calls, verify_he vf env = (Acc m, calls)) <->
+  (exists m0 a,
+    unmarshal_sign1 env = Acc m0 /\ validate_he_headers (s1_h m0) = true /\
+    fst (sign1_verify m0 None vf) = Acc tt /\
+    payload_hash_alg_of (hP (s1_h m0)) = Acc a /\ validate_hash a (s1_payload m0) = true).
+Proof. exact verify_he_iff. Qed.
+Print Assumptions C03_verify_he_iff.
